@@ -1234,6 +1234,18 @@ def typed_label(col):
   return T_DICT[col][0] if col in T_DICT else T_COLS[col][0]
 
 
+def label_of(case, a):
+  """dtype label of a bag aggregate's input, read off the data (first non-empty batch)"""
+  for b in case['batches']:
+    v = b.get(a['in'][0])
+    if isinstance(v, dict):
+      v = v.get(a.get('field'))
+    if v:
+      k = col_kind(v)
+      return ('dict-' if a['kind'] == 'dictbag' else '') + k + ('2d' if isinstance(v[0], list) else '')
+  return 'empty'
+
+
 def gen_typed_matrix(rng):
   for col, container, path, rk in typed_matrix():
     repl = rng.choice([r for k, r in T_REPLS if k == rk])
@@ -1273,7 +1285,7 @@ def typed_features(case):
       if r is FILTER:
         continue
       path = 'row' if sl['kind'] != 'mask' else 'npmask' if sl.get('layout') == ['np0'] else 'listmask'
-      f.add(f'typed:{typed_label(col)}/{container}/{path}x{kind_of(r)}')
+      f.add(f'typed:{label_of(case, a)}/{container}/{path}x{kind_of(r)}')
       if _str_promote(case, a, sl):
         f.add('typed:str-promote-class')
   return f
